@@ -32,7 +32,7 @@ from lib import core
 PROPS = 'EdbVerif/Props/C04.lean'
 REQUIRED = [
     'EdbVerif.C04.store_inv', 'EdbVerif.C04.store_err', 'EdbVerif.C04.C04_nodangling',
-    'EdbVerif.C04.C04_dropped', 'EdbVerif.C04.C04_frozen',
+    'EdbVerif.C04.C04_dropped', 'EdbVerif.C04.C04_frozen', 'EdbVerif.C04.store_no_internal_error',
 ]
 
 SPECIAL = {0: '__derived__', 1: '__ext_casts__', 2: '__ext_index_matches__'}
@@ -823,6 +823,10 @@ def run_history(w: World, source, mode, universe, names, tally):
         else:
             if dump_real(w, before) != dump_before:
                 bad.append('operation changed the schema value it was applied to (not persistent)')
+        if inv_expected and guard_ok and status in ('err KeyError', 'err LookupError'):
+            # from a consistent schema (audited after the previous operation) a guarded raw
+            # operation has no business tripping over a missing index entry
+            bad.append(f'internal {status[4:]} raised from a schema that satisfies Inv')
         real.s = ns
         dmp = dump_real(w, ns)
         if status == 'ok' and ns is not before:
